@@ -462,13 +462,39 @@ def read_slots(name, scheme, key, db, edb):
     return slots
 
 
+_OTHERS = {}
+
+
+def other_schemes_run(skip):
+    """a fixed piece of process history: every OTHER scheme builds a small fixed index.  Whatever process-wide state a scheme
+    touches (the `random` module's generator, module-level caches) is touched here, identically each time it is called."""
+    for name in se.NAMES:
+        if name == skip:
+            continue
+        if name not in _OTHERS:
+            import random as _r
+            rng = _r.Random(99)
+            cfg = se.grid(name, rng, 1)[0]
+            db = se.gen_db(name, cfg, rng, "mixed")
+            _OTHERS[name] = (se.finalize_cfg(name, cfg, db), db)
+        cfg, db = _OTHERS[name]
+        try:
+            sch = se.loader(name).SSEScheme(copy.deepcopy(cfg))
+            sch.EDBSetup(sch.KeyGen(), db)
+        except Exception:
+            pass
+
+
 def c06_placement(res, c):
-    """(b) two setups place array-resident blocks at different positions (>= 12 such blocks)"""
+    """(b) two setups place array-resident blocks at different positions (>= 12 such blocks) — also when the same piece of
+    process history (the other schemes at work) precedes each of them"""
     name = c["name"]
     if name not in ("PiPtr", "Pi2Lev", "SSE1", "DP17"):
         return
     try:
+        other_schemes_run(name)
         ld, scheme, key, edb = build(c)
+        other_schemes_run(name)
         s1 = read_slots(name, scheme, key, c["db"], edb)
         if name in ("SSE1",):                       # placement is key-derived: fresh key
             key2 = scheme.KeyGen()
@@ -477,6 +503,23 @@ def c06_placement(res, c):
         edb2 = scheme.EDBSetup(key2, c["db"])
         s2 = read_slots(name, scheme, key2, c["db"], edb2)
     except Exception:
+        return
+    if name == "DP17":
+        # buckets are few and shared: compare which bucket every chunk of every keyword went to.  Every chunk has (at least)
+        # two eligible buckets, so >= 12 chunks coincide in two setups with probability <= 2^-12; four setups in a row: < 1e-10
+        a1 = slot_assignment(name, scheme, key, c["db"], edb)
+        if sum(len(x) for x in a1) < 12:
+            return
+        res.count("placement pairs")
+        same = slot_assignment(name, scheme, key, c["db"], edb2) == a1
+        for _ in range(2):
+            if not same:
+                break
+            other_schemes_run(name)
+            same = slot_assignment(name, scheme, key, c["db"], scheme.EDBSetup(key, c["db"])) == a1
+        if same:
+            sk.violation(res, "DP17: four setups put every chunk into the same bucket",
+                         f"DP17 ({c['profile']}): the chunk-to-bucket assignment of {sum(len(x) for x in a1)} chunks is identical in four setups", sk.show_case(c))
         return
     if s1 is None or len(s1) < 12:
         return
@@ -516,6 +559,16 @@ def read_slots_for(name, scheme, key, w, edb):
         e = type(edb)(edb.D, SpyList(edb.A))
     elif name == "SSE1":
         e = type(edb)(SpyList(edb.A), edb.T)
+    elif name == "DP17":
+        spy = {}
+        for i, a in edb.A_dict.items():
+            class L(list):
+                def __getitem__(self, j, _i=i):
+                    if isinstance(j, int):
+                        order.append((_i, j))
+                    return list.__getitem__(self, j)
+            spy[i] = L(a)
+        e = type(edb)(edb.HT, spy)
     else:
         return None
     scheme.Search(e, scheme.TokenGen(key, w))
